@@ -2477,8 +2477,9 @@ fn probe_semi_anti_parallel(
                             .iter()
                             .map(|col| arrow::compute::take(col, &take_idx, None))
                             .collect();
-                    let batch = RecordBatch::try_new(
-                        output_schema.clone(),
+                    // probe columns out of a child join may be dictionary-encoded
+                    let batch = batch_with_actual_types(
+                        output_schema,
                         columns.map_err(|e| crate::error::QueryError::Execution(e.to_string()))?,
                     )?;
                     return Ok(Some(batch));
@@ -2580,7 +2581,7 @@ fn create_single_row_combined_batch(
         build_columns.into_iter().chain(probe_columns).collect()
     };
 
-    RecordBatch::try_new(combined_schema.clone(), all_columns).map_err(Into::into)
+    batch_with_actual_types(combined_schema, all_columns)
 }
 
 /// Vectorized probe: handles Inner, Left, Right, Semi, Anti, Full, Cross joins
@@ -3163,8 +3164,9 @@ fn probe_vectorized(
                                 .iter()
                                 .map(|col| arrow::compute::take(col, &take_idx, None))
                                 .collect();
-                        let batch = RecordBatch::try_new(
-                            output_schema.clone(),
+                        // probe columns out of a child join may be dictionary-encoded
+                        let batch = batch_with_actual_types(
+                            output_schema,
                             columns
                                 .map_err(|e| crate::error::QueryError::Execution(e.to_string()))?,
                         )?;
@@ -3508,8 +3510,9 @@ fn probe_hash_table(
                                 .iter()
                                 .map(|col| arrow::compute::take(col, &take_idx, None))
                                 .collect();
-                        let batch = RecordBatch::try_new(
-                            output_schema.clone(),
+                        // probe columns out of a child join may be dictionary-encoded
+                        let batch = batch_with_actual_types(
+                            output_schema,
                             columns
                                 .map_err(|e| crate::error::QueryError::Execution(e.to_string()))?,
                         )?;
@@ -3676,7 +3679,8 @@ fn create_semi_anti_batch(
         .map(|col_idx| gather_column(build_batches, col_idx, indices))
         .collect();
 
-    RecordBatch::try_new(output_schema.clone(), columns?).map_err(Into::into)
+    // build columns out of a child join may be dictionary-encoded
+    batch_with_actual_types(output_schema, columns?)
 }
 
 fn create_joined_batch(
